@@ -19,27 +19,37 @@ from vf import x10_fields as X
 from vf.core import Reject, Violation, check_close, check_equal, relerr
 
 RULE = (
-  "case = (batchable field f enumerated at run time from the array('*', ...) annotations of types.Model/Option/Statistic) x rich model that uses f "
-  "(contacts on a plane, violated joint/tendon limits, frictionloss, equalities, fixed+spatial tendons, 4 actuators, fluid, gravcomp, adhesion, "
-  "cameras, lights, mocap, static bodies, sensor battery) x nworld in {2,3,4,6} x batch size b in {1, divisors, nworld} x b different valid rows of f "
-  "(mode direct: only f varies; mode consistent: f's mj_setConst inputs vary and every derived field mj_setConst recomputes is batched too) x "
-  "assignment style (put_model(batch_sizes) + assign / replace the array); oracle: world i of the batched run == world 0 of put_model(mjm_i), "
-  "mjm_i = MjModel edited to hold row i%b, after forward and 2 steps (bitwise, or 1e-4..2e-3 of the field scale with per-step resync): state, "
-  "kinematics of bodies/geoms/sites/cameras/lights, tendon/actuator lengths and forces, passive/bias/constraint forces, sensordata, energy, "
-  "ne/nf/nl/nefc, contact multiset with parameters, solver_niter, tree_asleep; evaluation = one (world, stage); non-trivial = the unbatched "
-  "runs of two different rows (b=1: row vs unedited model) differ in some observed output (else the field is counted 'inert')"
+  "case = (batchable field f enumerated at run time from the array('*', ...) annotations of types.Model/Option/Statistic) x rich model in which f "
+  "has a live user (bodies piled on a plane incl. explicit pairs fitted to touching / gap-band geoms, joint and tendon limits fitted to be violated "
+  "at the drawn state, frictionloss, connect/weld/joint/tendon equalities, a fully parameterised fixed tendon + spatial tendon with wrapping, "
+  "position/intvelocity/general(+activation, affine gain and bias, act/ctrl/force ranges)/muscle/slider-crank/site actuators, fluid, gravcomp, "
+  "adhesion, surface velocity, meshes, cameras and lights in all tracking modes, mocap, static bodies, a sensor battery incl. camprojection, "
+  "magnetometer, limit/actuator force sensors; feature tags per field: CG solver, calm state with 50x friction loss, sleeping, elliptic cone, ...) x "
+  "nworld in {2,3,4,6} x batch size b in {1, divisors, nworld} x b different valid rows of f (mode direct: only f varies; mode consistent: f's "
+  "mj_setConst inputs vary and every field mj_setConst recomputes is batched too) x assignment style (put_model(batch_sizes) + assign / replace "
+  "the array) x options (4 integrators, Newton/CG, both cones, dense/sparse, sleeping enabled in 1/4 of the Newton cases); oracle: world i of the "
+  "batched run == world 0 of put_model(mjm_i) + make_data(mjm_i), mjm_i = MjModel edited to hold row i%b, after forward and 2 steps with per-step "
+  "resync (bitwise, else 1e-4 of the field scale, 2e-4 for solver outputs and per sensor; Newton + sparse Jacobian: 3e-2 for solver outputs, no "
+  "niter comparison): state, kinematics of bodies/geoms/sites/cameras/lights, tendon/actuator lengths and forces, passive/bias/constraint forces, "
+  "each sensor, energy, ne/nf/nl/nefc, contact multiset with its parameters, solver_niter, tree_asleep; evaluation = one (world, stage); "
+  "non-trivial = the unbatched runs of two different rows (b=1: row vs unedited model) differ in some observed output by > 3x the comparison "
+  "tolerance, so that reading the wrong row would be reported (else the field is counted 'inert' for that case)"
 )
 ASSUMPTIONS = [
   "render-only fields are skipped explicitly (class field:<name>:skipped-render-only): " + ", ".join(sorted(X.RENDER_ONLY)),
   "decisions frozen by put_model are respected: has_fluid/flg_adhesion/flg_surfacevel/ngravcomp/body_fluid_box (wind, density, viscosity, adhesion, "
   "surfacevel, gravcomp, masses varied multiplicatively around a non-zero base; zero stays zero), tolerance >= 1e-6 (put_model clamp), box/mesh "
-  "geoms keep margin 0; a case whose per-world MjModel changes any non-batchable Model field is rejected (class frozen-changed)",
+  "geoms keep margin 0; a case whose per-world MjModel changes any non-batchable Model field is rejected (class frozen-changed); MuJoCo's "
+  "*_sameframe compiler shortcuts are cleared in the MjModel copies (they are stale once pose fields are edited)",
   "static-geom-pose (F1): per-world geom_pos/geom_quat of geoms welded to the world and body_pos/body_quat of the static non-mocap bodies carrying "
-  "them are excluded from the ordinary cases (counted in excluded) and probed separately with sig static-geom-pose",
+  "them are excluded from the ordinary cases (counted in excluded) and probed separately (mode static-probe varies only those elements) with sig "
+  "static-geom-pose; sleep:opt-tolerance: cases (field in {tolerance, ls_tolerance}, sleeping enabled) are routed through that sig",
+  "Newton + sparse Jacobian is reproducible across batch sizes only to solver accuracy (Hessian accumulated in nworld-dependent groups, as in C09): "
+  "kept to ~1/10 of the cases, never with RK4 or sleeping, solver outputs judged to 3e-2 and not at all when a solve hit the iteration limit",
   "all worlds start from the same state (cross-world state independence is C09); ample capacities nconmax=120 njmax=400, overflow => discarded",
   "CPU device, canonical thread order",
 ]
-BUDGET = {"quick": dict(examples=128, seconds=150, workers=16), "thorough": dict(examples=3000, seconds=1500, workers=16)}
+BUDGET = {"quick": dict(examples=64, seconds=150, workers=16), "thorough": dict(examples=3000, seconds=1500, workers=16)}
 
 _CAP = int(OT.NEFC | OT.NJMAX_NNZ | OT.BROADPHASE | OT.NARROWPHASE | OT.CCD | OT.NVMAX | OT.HFIELD | OT.EPA_HORIZON | OT.CONTACT_MATCH)
 _FIELDS = [
@@ -81,7 +91,7 @@ def _mk_case(name, g, k):
 
 
 def enumerate_cases(tier, seed):
-  per = 2 if tier == "quick" else 12
+  per = 3 if tier == "quick" else 12
   cases = []
   for fi, name in enumerate(_NAMES):
     if name in X.RENDER_ONLY:
@@ -217,7 +227,7 @@ def compare(rec, a, b, what, reassoc=False, maxiter=100, sig=None, **ctx):
       continue
     rec.notes["non_bitwise_fields"] += 1
     name = ("sensordata" if k.startswith("sensor") else k)
-    check_close(rec, ("reassoc:" if reassoc else "") + name, a[k], b[k], _tol(k, reassoc), sig=s(k), **ctx)
+    check_close(rec, ("finding:" if sig else "reassoc:" if reassoc else "") + name, a[k], b[k], _tol(k, reassoc), sig=s(k), **ctx)
 
 
 def differs(a, b, reassoc, maxiter=100):
@@ -251,9 +261,13 @@ def _resolve(case):
   if "b" not in c:
     divs = _DIVS[c["nworld"]]
     c["b"] = 1 if c["bsel"] == 0 else divs[-2] if c["bsel"] == 1 else divs[-1]
+  if "sleep" not in c:
+    c["sleep"] = bool(c["opt"]["solver"] == "Newton" and c["value_seed"] % 4 == 0)
   c["opt"] = dict(c["opt"])
-  if c["opt"]["solver"] == "Newton" and c["opt"]["jacobian"] == "sparse" and c["model_seed"] % 2:
-    c["opt"]["jacobian"] = "dense"  # Newton + sparse Jacobian is only reproducible to solver accuracy across batch sizes: keep it to 1/8 of the cases
+  if c["opt"]["solver"] == "Newton" and c["opt"]["jacobian"] == "sparse" and (c["model_seed"] % 2 or c["opt"]["integrator"] == "RK4" or c["sleep"]):
+    # Newton + sparse Jacobian is only reproducible to solver accuracy across batch sizes: kept to ~1/10 of the cases, and never with
+    # RK4 or sleeping (sub-stages / the post-integration fwd_velocity feed the solver round-off back into every output, discrete ones included)
+    c["opt"]["jacobian"] = "dense"
   if "mode" not in c:
     ms = _modes(c["field"])
     c["mode"] = "static-probe" if (c["field"] in X.POSE_FIELDS and c["modesel"] == 19) else ms[c["modesel"] % len(ms)]
@@ -269,7 +283,9 @@ def check(case, rec):
   owner = _OWNER[name]
   n, b, mode = case["nworld"], case["b"], case["mode"]
   probe = mode == "static-probe"
-  tags = X.FIELD_TAGS.get(name, ())
+  tags = tuple(X.FIELD_TAGS.get(name, ()))
+  if case.get("sleep") and "sleep" not in tags:
+    tags = tuple(t for t in tags if t != "cg") + ("sleepflag",)  # sleeping enabled: the compacted active-DOF solve path (Newton only)
   calm = "calm" in tags or "sleep" in tags or bool(case.get("calm"))
   spec = X.build_spec(case["model_seed"], case["opt"], tags)
   mjm0 = H.compile_xml(X.render_xml(spec))
@@ -283,6 +299,7 @@ def check(case, rec):
     mjm = X.copy_model(H.compile_xml(X.render_xml(spec)))
     X.clear_shortcut_flags(mjm)
     state = H.rand_state(mjm, case["state_seed"], **skw)
+    band = X.fit_gap_band(mjm, state) if "gapband" in tags else []
     for a in range(mjm.nu):  # muscle activations live in [0, 1]
       if int(mjm.actuator_dyntype[a]) == int(mujoco.mjtDyn.mjDYN_MUSCLE) and mjm.actuator_actadr[a] >= 0:
         state["act"][mjm.actuator_actadr[a]] = min(0.9, 0.1 + abs(state["act"][mjm.actuator_actadr[a]]))
@@ -292,7 +309,7 @@ def check(case, rec):
 
   # per-row MjModels
   targets = [name] if mode != "consistent" else list(X.DERIVED.get(name, (name,)))
-  rows_mjm, nexcl, ctx = [], 0, {}
+  rows_mjm, nexcl, ctx = [], 0, dict(band=band)
   for r in range(b):
     mr = X.copy_model(mjm)
     for f in targets:
@@ -355,8 +372,10 @@ def check(case, rec):
   if b == 1:
     extra = H.make_data(mjm, nworld=1, **caps)  # the unedited model, for the non-triviality measurement
     H.set_data(extra, state)
-  reassoc = bool(mb.is_sparse) and case["opt"]["solver"] == "Newton"
+  reassoc = bool(mb.is_sparse) and int(mjm.opt.solver) == int(mujoco.mjtSolver.mjSOL_NEWTON)
   sig = "static-geom-pose" if probe else None
+  if name in ("tolerance", "ls_tolerance") and ("sleepflag" in tags or "sleep" in tags):
+    sig = "sleep:opt-tolerance"  # solve_compact reads the make_data-time host tolerances (d.ctol / d.cls_tol)
   maxiter = int(mjm.opt.iterations)
   nt_reason = None
   nstage = 3
@@ -382,14 +401,18 @@ def check(case, rec):
         nt_reason = nt_reason or differs(solos[0], o, reassoc, maxiter)
     for w in range(n):
       rec.ev()
+      nknown = sum(rec.known.values())
       compare(rec, snapshot(mjm, D, w), solos[w], "batched-vs-unbatched", reassoc=reassoc, maxiter=maxiter, sig=sig, field=name, world=w, row=w % b, stage=s, mode=mode, changed=[f for _, f in changed])
+      if sum(rec.known.values()) != nknown:  # a listed finding was confirmed on this case: nothing more to learn from it
+        rec.cls(f"finding-confirmed:{sig}")
+        return
     if s > 0 and s < nstage - 1:
       stt = H.get_state(mb, D, mjm)
       for w in range(n):
         H.set_state(m_rows[w % b], S[w], mjm, stt[w : w + 1])
   rec.cls(
     f"field:{name}:{'checked' if nt_reason else 'inert'}", f"mode:{mode}", f"b:{'1' if b == 1 else 'nworld' if b == n else 'divisor'}", f"nworld:{n}",
-    f"style:{style}", f"nchanged:{min(len(changed), 5)}", f"calm:{calm}", f"solver:{case['opt']['solver']}", f"sparse:{bool(mb.is_sparse)}",
+    f"style:{style}", f"nchanged:{min(len(changed), 5)}", f"calm:{calm}", f"sleep-enabled:{'sleep' in tags or 'sleepflag' in tags}", f"solver:{'Newton' if int(mjm.opt.solver) == int(mujoco.mjtSolver.mjSOL_NEWTON) else 'CG'}", f"integrator:{case['opt']['integrator']}", f"cone:{'elliptic' if int(mjm.opt.cone) else 'pyramidal'}", f"sparse:{bool(mb.is_sparse)}",
   )
   if nt_reason:
     rec.cls(f"nt-via:{nt_reason}")
